@@ -59,6 +59,24 @@ func (c *Compiler) validateAllGroupings(m parse.Node, n parse.Node) error {
 	return nil
 }
 
+// usesWithin returns the uses statements anywhere in the body of n: a grouping
+// can reach itself through a uses written inside one of its containers, lists,
+// choices or cases as well. Groupings defined inside n are separate
+// definitions; they are only followed where they are used.
+func usesWithin(n parse.Node) []parse.Node {
+	var out []parse.Node
+	for _, ch := range n.Children() {
+		switch ch.Type() {
+		case parse.NodeUses:
+			out = append(out, ch)
+		case parse.NodeGrouping:
+		default:
+			out = append(out, usesWithin(ch)...)
+		}
+	}
+	return out
+}
+
 func (c *Compiler) validateGrouping(
 	m parse.Node,
 	g parse.Node,
@@ -68,8 +86,11 @@ func (c *Compiler) validateGrouping(
 		return fmt.Errorf("Grouping cycle detected in: grouping %s", g.Name())
 	}
 
+	// group_map holds the groupings on the current chain of uses: a grouping
+	// may be used any number of times, it just must not reach itself.
 	group_map[g.Name()] = true
-	for _, u := range g.ChildrenByType(parse.NodeUses) {
+	defer delete(group_map, g.Name())
+	for _, u := range usesWithin(g) {
 		gname := u.ArgIdRef()
 		mod, err := u.GetModuleByPrefix(
 			gname.Space, c.modules, c.skipUnknown)
